@@ -114,45 +114,55 @@ Definition lzma2_chunk_header (s : lzma2) : outcome lzma2 :=
 Definition rdec_is_finished (d : rdec) : bool :=
   match rd_in d with [] => (rd_over d =? 0) && (rd_code d =? 0) | _ => false end.
 
+(* one iteration of the while loop of read_decode with [len] > 0 bytes still wanted: the chunk
+   header if a new chunk starts, then one copy / decode step and the flush.  Returns the bytes
+   flushed and the new state; m_end_reached of the new state says that the end-of-stream control
+   byte was read (then nothing was flushed). *)
+Definition lzma2_iter (s : lzma2) (len : Z) : outcome (list Z * lzma2) :=
+  do s1 <- (if m_uncompressed_size s =? 0 then lzma2_chunk_header s else Ok s);
+  if m_end_reached s1 then Ok ([], s1) else
+  let copy_size_max := Z.min (m_uncompressed_size s1) len in
+  do s2 <-
+    (if negb (m_is_lzma_chunk s1) then
+       do wi <- lzwin_copy_uncompressed (m_win s1) (m_in s1) copy_size_max;
+       let '(w, input) := wi in
+       Ok (mkLzma2 input w (m_rc s1) (m_probs s1) (m_coder s1) (m_uncompressed_size s1) (m_is_lzma_chunk s1)
+                   (m_need_dict_reset s1) (m_need_props s1) (m_end_reached s1) (m_error s1))
+     else
+       let w := lzwin_set_limit (m_win s1) copy_size_max in
+       match m_coder s1 with
+       | None => Ok (mkLzma2 (m_in s1) w (m_rc s1) (m_probs s1) None (m_uncompressed_size s1) true
+                             (m_need_dict_reset s1) (m_need_props s1) (m_end_reached s1) (m_error s1))
+       | Some c =>
+           do r <- lzma_decode c w (m_rc s1) (m_probs s1);
+           let '(c1, w1, status, d1, t1) := r in
+           match status with
+           | Ok _ => Ok (mkLzma2 (m_in s1) w1 d1 t1 (Some c1) (m_uncompressed_size s1) true
+                                 (m_need_dict_reset s1) (m_need_props s1) (m_end_reached s1) (m_error s1))
+           | Err e => Err e
+           | Panic e => Panic e
+           | Fuel => Fuel
+           end
+       end);
+  let '(out, w3) := lzwin_flush (m_win s2) in
+  let copied := zlen out in
+  let usize := m_uncompressed_size s2 - copied in
+  if usize <? 0 then Panic 51 else
+  let s3 := mkLzma2 (m_in s2) w3 (m_rc s2) (m_probs s2) (m_coder s2) usize (m_is_lzma_chunk s2)
+                    (m_need_dict_reset s2) (m_need_props s2) (m_end_reached s2) (m_error s2) in
+  if (usize =? 0) && (negb (rdec_is_finished (m_rc s3)) || lzwin_has_pending w3) then Err E_INVALID_INPUT
+  else Ok (out, s3).
+
 (* the while loop of read_decode *)
 Fixpoint lzma2_read_loop (fuel : nat) (s : lzma2) (len : Z) (acc : list Z) : outcome (list Z * lzma2) :=
   if len <=? 0 then Ok (frev acc, s) else
   match fuel with
   | O => Fuel
   | S f =>
-      do s1 <- (if m_uncompressed_size s =? 0 then lzma2_chunk_header s else Ok s);
-      if m_end_reached s1 then Ok (frev acc, s1) else
-      let copy_size_max := Z.min (m_uncompressed_size s1) len in
-      do s2 <-
-        (if negb (m_is_lzma_chunk s1) then
-           do wi <- lzwin_copy_uncompressed (m_win s1) (m_in s1) copy_size_max;
-           let '(w, input) := wi in
-           Ok (mkLzma2 input w (m_rc s1) (m_probs s1) (m_coder s1) (m_uncompressed_size s1) (m_is_lzma_chunk s1)
-                       (m_need_dict_reset s1) (m_need_props s1) (m_end_reached s1) (m_error s1))
-         else
-           let w := lzwin_set_limit (m_win s1) copy_size_max in
-           match m_coder s1 with
-           | None => Ok (mkLzma2 (m_in s1) w (m_rc s1) (m_probs s1) None (m_uncompressed_size s1) true
-                                 (m_need_dict_reset s1) (m_need_props s1) (m_end_reached s1) (m_error s1))
-           | Some c =>
-               do r <- lzma_decode c w (m_rc s1) (m_probs s1);
-               let '(c1, w1, status, d1, t1) := r in
-               match status with
-               | Ok _ => Ok (mkLzma2 (m_in s1) w1 d1 t1 (Some c1) (m_uncompressed_size s1) true
-                                     (m_need_dict_reset s1) (m_need_props s1) (m_end_reached s1) (m_error s1))
-               | Err e => Err e
-               | Panic e => Panic e
-               | Fuel => Fuel
-               end
-           end);
-      let '(out, w3) := lzwin_flush (m_win s2) in
-      let copied := zlen out in
-      let usize := m_uncompressed_size s2 - copied in
-      if usize <? 0 then Panic 51 else
-      let s3 := mkLzma2 (m_in s2) w3 (m_rc s2) (m_probs s2) (m_coder s2) usize (m_is_lzma_chunk s2)
-                        (m_need_dict_reset s2) (m_need_props s2) (m_end_reached s2) (m_error s2) in
-      if (usize =? 0) && (negb (rdec_is_finished (m_rc s3)) || lzwin_has_pending w3) then Err E_INVALID_INPUT
-      else lzma2_read_loop f s3 (len - copied) (rev_append out acc)
+      do r <- lzma2_iter s len;
+      let '(out, s1) := r in
+      if m_end_reached s1 then Ok (frev acc, s1)
+      else lzma2_read_loop f s1 (len - zlen out) (rev_append out acc)
   end.
 
 (* read(buf): sticky error.  On error the Rust reader keeps whatever state read_decode reached;
